@@ -340,7 +340,7 @@ PROPS["C19"] = {
 
 PROPS["C07"] = {
     "modules": ["SlogModel.Props.C07"],
-    "components": [("pipe-c07", 1500, 30000), ("agent-c07", 30, 300)],
+    "components": [("pipe-c07", 1500, 30000), ("agent-c07", 30, 300), ("parse", 6000, 100000), ("ser", 1500, 20000), ("xform", 4000, 40000)],
     "rule": "pipe: one case = one real record path (syslog parser with limits 60/200/2000 and two level mappings, a generated "
             "transform program over a 15-field schema fed by the parsed fields, the Fluentd event serializer with environment / "
             "hidden fields and unescape rewriters) processing 8 lines - the parser's hostile corpus, binary garbage behind a valid "
